@@ -99,6 +99,34 @@ theorem retainL_eq (cs : List (Item ι V)) (f : ι → V → Option V) :
     (Item.leaf rx vs : Item ι V).contents = vs.map fun kv => ⟨rx.original, kv.1, kv.2⟩ := by
   simp [Item.contents]
 
+/-! ### Well-formed `LazyRegex`es -/
+
+@[simp] theorem newLeaf_leafWf (p : List Char) (ic : Bool) : (LazyRegex.newLeaf p ic).leafWf = true := by
+  simp [LazyRegex.newLeaf, LazyRegex.leafWf, LazyRegex.consistent]
+
+@[simp] theorem newNode_nodeWf (q : List Char) (ic : Bool) : (LazyRegex.newNode q ic).nodeWf = true := by
+  simp [LazyRegex.newNode, LazyRegex.nodeWf, LazyRegex.consistent]
+
+@[simp] theorem newLeaf_ic (p : List Char) (ic : Bool) : (LazyRegex.newLeaf p ic).ic = ic := rfl
+@[simp] theorem newNode_ic (q : List Char) (ic : Bool) : (LazyRegex.newNode q ic).ic = ic := rfl
+@[simp] theorem newLeaf_original (p : List Char) (ic : Bool) : (LazyRegex.newLeaf p ic).original = p := rfl
+@[simp] theorem newNode_original (q : List Char) (ic : Bool) : (LazyRegex.newNode q ic).original = q := rfl
+
+theorem leafWf_iff {rx : LazyRegex} :
+    rx.leafWf = true ↔ rx.regex = .leaf rx.original ∧ rx.consistent = true := by
+  simp [LazyRegex.leafWf]
+
+theorem nodeWf_iff {rx : LazyRegex} :
+    rx.nodeWf = true ↔
+      rx.regex = (if rx.original.isEmpty then RxSrc.any else .node rx.original) ∧ rx.consistent = true := by
+  simp [LazyRegex.nodeWf]
+
+/-- The stored value of a consistent regex is the one built from its fields. -/
+theorem consistent_iff {rx : LazyRegex} :
+    rx.consistent = true ↔ ∀ c, rx.compiled = some c → c = ⟨rx.regex, rx.ic⟩ := by
+  unfold LazyRegex.consistent
+  cases rx.compiled <;> simp
+
 /-! ### Invariant, as propositions -/
 
 /-- The sibling relation of `sibOk`. -/
@@ -118,12 +146,12 @@ theorem inv_empty_iff {ic ic' : Bool} : (Item.empty ic' : Item ι V).inv ic = tr
 
 theorem inv_leaf_iff {ic : Bool} {rx : LazyRegex} {vs : List (ι × V)} :
     (Item.leaf rx vs : Item ι V).inv ic = true ↔
-      rx.isLeaf = true ∧ rx.ic = ic ∧ vs ≠ [] ∧ nodupKeys vs = true := by
+      rx.leafWf = true ∧ rx.ic = ic ∧ vs ≠ [] ∧ nodupKeys vs = true := by
   simp [Item.inv, and_assoc, List.isEmpty_iff]
 
 theorem inv_node_iff {ic : Bool} {rx : LazyRegex} {cs : List (Item ι V)} :
     (Item.node rx cs : Item ι V).inv ic = true ↔
-      rx.isLeaf = false ∧ rx.ic = ic ∧ (scan b0 rx.original).atBoundary = true ∧ 2 ≤ cs.length ∧
+      rx.nodeWf = true ∧ rx.ic = ic ∧ (scan b0 rx.original).atBoundary = true ∧ 2 ≤ cs.length ∧
       (∀ c ∈ cs, childOk rx.original c = true) ∧
       (cs.map Item.regex).Pairwise (Sib rx.original.length) ∧ (∀ c ∈ cs, c.inv ic = true) := by
   simp [Item.inv, and_assoc, sibOk_iff, invL_iff]
